@@ -12,6 +12,7 @@ import (
 	"os"
 	"os/exec"
 	"path/filepath"
+	"regexp"
 	"runtime"
 	"sort"
 	"strconv"
@@ -145,7 +146,64 @@ func altModfile(simDir string) string {
 	return p
 }
 
+// crashOracle names, per property, the "never crashes" oracle.
+var crashOracle = map[string]string{"C01": "O01.1", "C08": "O08.1", "C25": "O25.1", "C44": "O44.3", "C45": "O45.4", "C46": "O46.3", "C48": "O48"}
+
+var runMarker = regexp.MustCompile(`VSIM-RUN idx=(\d+) seed=(\d+)`)
+
+// classifyCrash looks at the output of a worker that died. If the Go runtime reports a
+// panic or fatal error and the first frame of the crashing goroutine that is neither
+// runtime nor standard library belongs to d2, the system under test crashed.
+func classifyCrash(log, prop string) *harness.Failure {
+	ms := runMarker.FindAllStringSubmatch(log, -1)
+	if len(ms) == 0 {
+		return nil
+	}
+	last := ms[len(ms)-1]
+	at := strings.Index(log, "\npanic: ")
+	if at < 0 {
+		at = strings.Index(log, "\nfatal error: ")
+	}
+	if at < 0 {
+		return nil
+	}
+	crash := log[at+1:]
+	// first goroutine block after the message
+	block := crash
+	if i := strings.Index(crash, "\n\ngoroutine "); i >= 0 {
+		rest := crash[i+2:]
+		if j := strings.Index(rest, "\n\n"); j >= 0 {
+			rest = rest[:j]
+		}
+		block = crash[:i] + "\n" + rest
+	}
+	owner := ""
+	for _, l := range strings.Split(block, "\n") {
+		l = strings.TrimSpace(l)
+		switch {
+		case strings.HasPrefix(l, "oss.terrastruct.com/d2/"):
+			owner = "d2"
+		case strings.HasPrefix(l, "verifsim/"), strings.HasPrefix(l, "github.com/fsnotify/fsnotify"):
+			owner = "harness"
+		}
+		if owner != "" {
+			break
+		}
+	}
+	if owner != "d2" {
+		return nil
+	}
+	idx, _ := strconv.Atoi(last[1])
+	seed, _ := strconv.ParseUint(last[2], 10, 64)
+	if len(block) > 3000 {
+		block = block[:3000]
+	}
+	return &harness.Failure{RunIndex: idx, Seed: seed, Result: harness.Result{Property: prop, Oracle: crashOracle[prop],
+		Msg: "the system under test crashed the process:\n" + block}}
+}
+
 type workerJob struct {
+	prop string
 	env  []string
 	out  string
 	log  string
@@ -177,7 +235,13 @@ func runWorker(bin string, j workerJob) (*harness.Summary, error) {
 	lf.Close()
 	b, rerr := os.ReadFile(j.out)
 	if rerr != nil {
-		tail, _ := os.ReadFile(j.log)
+		logb, _ := os.ReadFile(j.log)
+		if f := classifyCrash(string(logb), j.prop); f != nil {
+			// The system under test crashed the process: that is a result, not a
+			// harness failure.
+			return &harness.Summary{Runs: 1, Evals: 1, Failures: []harness.Failure{*f}, Crashed: true}, nil
+		}
+		tail := logb
 		if len(tail) > 6000 {
 			tail = tail[len(tail)-6000:]
 		}
@@ -283,7 +347,7 @@ func main() {
 			env = append(env, "VSIM_WORKER="+strconv.Itoa(w), "VSIM_WORKERS="+strconv.Itoa(*workers),
 				"VSIM_BUDGET_MS="+strconv.Itoa(budgetS*1000), "VSIM_MAXRUNS="+strconv.Itoa(maxRuns),
 				"VSIM_DETLOG=1", "VSIM_DETN="+strconv.Itoa(detN), "GOMAXPROCS=2")
-			sums[w], errs[w] = runWorker(bin, workerJob{env: env, out: filepath.Join(runDir, fmt.Sprintf("w%d.json", w)),
+			sums[w], errs[w] = runWorker(bin, workerJob{prop: *prop, env: env, out: filepath.Join(runDir, fmt.Sprintf("w%d.json", w)),
 				log: filepath.Join(runDir, fmt.Sprintf("w%d.log", w)), wall: time.Duration(budgetS)*time.Second*3 + 5*time.Minute})
 		}(w)
 	}
@@ -356,7 +420,10 @@ func main() {
 		f := reported[0]
 		rf := harness.ReplayFile{Property: *prop, Oracle: f.Result.Oracle, Msg: f.Result.Msg, Engine: spec.Engine, Tier: *tier, Master: master,
 			RunIndex: f.RunIndex, Seed: f.Seed, Tape: f.Tape, Labels: f.Labels, Trace: f.Result.Trace, Extra: spec.Extra,
-			SutCommit: gitHead(), GoVersion: goBin, OrigLen: len(f.Tape)}
+			SutCommit: gitHead(), GoVersion: goBin, OrigLen: len(f.Tape), FromSeed: f.Tape == nil}
+		if rf.FromSeed {
+			*noMin = true // no tape to shrink: the run is regenerated from its seed
+		}
 		fmt.Printf("violation in run %d (seed %d): %s: %s\n", f.RunIndex, f.Seed, f.Result.Oracle, firstLine(f.Result.Msg))
 		os.MkdirAll(filepath.Join(verifDir, "replays"), 0755)
 		replayPath = filepath.Join(verifDir, "replays", fmt.Sprintf("%s-%d.json", *prop, f.Seed))
@@ -499,10 +566,13 @@ func replayOnce(bin, runDir string, baseEnv []string, rf harness.ReplayFile, tag
 	defer os.Remove(out)
 	env := append([]string{}, baseEnv...)
 	env = append(env, "VSIM_REPLAY="+p, "GOMAXPROCS=2")
-	s, err := runWorker(bin, workerJob{env: env, out: out, log: out + ".log", wall: 5 * time.Minute})
+	s, err := runWorker(bin, workerJob{prop: rf.Property, env: env, out: out, log: out + ".log", wall: 5 * time.Minute})
 	os.Remove(out + ".log")
 	if err != nil {
 		return nil, err
+	}
+	if s.Crashed && len(s.Failures) > 0 {
+		return &s.Failures[0].Result, nil
 	}
 	if s.HarnessErr != "" {
 		return nil, fmt.Errorf("%s", s.HarnessErr)
